@@ -106,9 +106,11 @@ func InstallDBHooks() {
 		}
 		sched.Point("db-read-"+kind, nil, nil)
 	}
-	wr := func(kind string) { sched.Point("db-written-"+kind, nil, nil) }
+	// A point BEFORE every durable write: every shared operation of a thread (lock, read, write) is
+	// then preceded by a point, so a thread can be held right before its write while others run.
+	wr := func(kind string) { sched.Point("db-write-"+kind, nil, nil) }
 	verifhook.Read.Store(&rd)
-	verifhook.Durable.Store(&wr)
+	verifhook.PreDurable.Store(&wr)
 }
 
 type runner struct {
@@ -194,6 +196,16 @@ func ExploreExtra(r *ev.Run, engine string, scs []Scenario, until time.Time) {
 
 func explore(r *ev.Run, engine string, scs []Scenario, extra bool, until time.Time) {
 	InstallDBHooks()
+	if only := os.Getenv("VERIF_CONC_ONLY"); only != "" {
+		// development aid: restrict to the scenarios whose name contains the string
+		var keep []Scenario
+		for _, sc := range scs {
+			if strings.Contains(sc.Name, only) {
+				keep = append(keep, sc)
+			}
+		}
+		scs = keep
+	}
 	pfx := ""
 	if extra {
 		pfx = "conc_extra_"
@@ -282,6 +294,9 @@ func explore(r *ev.Run, engine string, scs []Scenario, extra bool, until time.Ti
 			}
 			if out != "" {
 				r.Outcome(sc.Name + ": " + out)
+				if os.Getenv("VERIF_CONC_OUTCOMES") != "" {
+					fmt.Fprintf(os.Stderr, "OUTCOME %s\n", out)
+				}
 			}
 			if res.Hung || res.Diverged != "" {
 				r.HarnessError("scenario %s choices %v: hung=%v diverged=%q", sc.Name, res.Choices, res.Hung, res.Diverged)
@@ -295,7 +310,22 @@ func explore(r *ev.Run, engine string, scs []Scenario, extra bool, until time.Ti
 				if key == "" {
 					key = sc.Name
 				}
+				// a scenario may classify its violation: "[[class]] text" puts the class into the key
+				// that known findings are matched against
+				if strings.HasPrefix(what, "[[") {
+					if j := strings.Index(what, "]]"); j > 0 {
+						key += " " + what[2:j]
+						what = strings.TrimSpace(what[j+2:])
+					}
+				}
 				r.Violate(ev.Violation{Engine: engine, Key: "conc " + key, What: fmt.Sprintf("%s, schedule %v (%d preemptions): %s", sc.Name, compact(res), res.PreemptionsBefore(len(res.Steps)), what), Artefact: Artefact{Scenario: sc.Name, Choices: res.Choices, Steps: labels(res)}})
+				if os.Getenv("VERIF_SHOW_KNOWN") != "" {
+					fmt.Fprintf(os.Stderr, "VIOL %s :: %s\n", key, what)
+				}
+				if r.IsKnown("conc " + key) {
+					// a listed finding must not hide other violations of the same subtree
+					return true
+				}
 				// one counterexample per work item is enough
 				return false
 			}
